@@ -246,6 +246,25 @@ func normFactsInt(fs []Fact, from, to *Term) []Fact {
 			if t.Name == "==" {
 				t = eqTerm(a, b)
 			} else {
+				// comparisons of a quotient by a positive constant with a constant are comparisons of the dividend:
+				//   k < x/c  <=>  !(x < (k+1)*c)   for k >= 0;      x/c < k  <=>  x < k*c   for k >= 1
+				for i := 0; i < 4; i++ {
+					if ka, ok := constVal(a); ok && ka.Sign() >= 0 && b.Kind == "binop" && b.Name == "/" {
+						if c, ok := constVal(b.Args[1]); ok && c.Sign() > 0 {
+							lim := new(big.Int).Mul(new(big.Int).Add(ka, big.NewInt(1)), c)
+							a, b = b.Args[0], mk("const", lim.String(), 0, types.Typ[types.Int])
+							f.Pos = !f.Pos
+							continue
+						}
+					}
+					if kb, ok := constVal(b); ok && kb.Sign() >= 1 && a.Kind == "binop" && a.Name == "/" {
+						if c, ok := constVal(a.Args[1]); ok && c.Sign() > 0 {
+							a, b = a.Args[0], mk("const", new(big.Int).Mul(kb, c).String(), 0, types.Typ[types.Int])
+							continue
+						}
+					}
+					break
+				}
 				t = mk("binop", "<", 0, t.Typ, a, b)
 			}
 		}
@@ -368,7 +387,6 @@ func ruleTileAddressing(w *World, r *Run, h int64) {
 	}
 	baseI, _ := constant.Int64Val(ref.Val())
 	base := big.NewInt(baseI)
-	baseT := mk("const", base.String(), 0, types.Typ[types.Int])
 	sp := modPath + "/internal/feeder/sumdb"
 	rt := "(" + sp + ".tileReader).ReadTiles"
 	fn := w.fn(rt)
@@ -434,22 +452,16 @@ func ruleTileAddressing(w *World, r *Run, h int64) {
 			facts := normFactsInt(s.Facts, hField, hT)
 			good := u.level == el("L") && u.off == normInt(el("N")) && (u.height == hT || (hField != nil && hField.Kind == "field"))
 			why := fmt.Sprintf("URL built from (height %s, level %s, index %s)", short(u.height.String()), short(u.level.String()), short(u.off.String()))
-			// digit groups: k groups exactly when base^(k-1) <= index < base^k
+			// digit groups: k groups exactly when base^(k-1) <= index < base^k (k = 1: index < base)
 			if good {
-				pow := big.NewInt(1)
-				for j := 0; j < u.groups; j++ {
-					var d *Term = u.off
-					if j > 0 {
-						d = mk("binop", "/", 0, types.Typ[types.Int], u.off, mk("const", pow.String(), 0, types.Typ[types.Int]))
-					}
-					last := j == u.groups-1
-					if !last && !implies(facts, "<", d, baseT, false) {
-						good, why = false, fmt.Sprintf("%d digit groups are emitted on a path that does not imply index/%s >= %s", u.groups, pow, base)
-					}
-					if last && u.groups < maxGroups && !implies(facts, "<", d, baseT, true) {
-						good, why = false, fmt.Sprintf("only %d digit group(s) are emitted on a path that does not imply index/%s < %s", u.groups, pow, base)
-					}
-					pow.Mul(pow, base)
+				lo := new(big.Int).Exp(base, big.NewInt(int64(u.groups-1)), nil)
+				hi := new(big.Int).Mul(lo, base)
+				cT := func(x *big.Int) *Term { return mk("const", x.String(), 0, types.Typ[types.Int]) }
+				if u.groups > 1 && !implies(facts, "<", u.off, cT(lo), false) {
+					good, why = false, fmt.Sprintf("%d digit groups are emitted on a path that does not imply index >= %s", u.groups, lo)
+				}
+				if u.groups < maxGroups && !implies(facts, "<", u.off, cT(hi), true) {
+					good, why = false, fmt.Sprintf("only %d digit group(s) are emitted on a path that does not imply index < %s", u.groups, hi)
 				}
 			}
 			r.Check(good, "C18.c", rt+" ∘ client | level, index and digit groups of the URL are those of the requested tile", w.pos(gd.Pos), why+"; path: "+pathString(e, s))
@@ -467,18 +479,7 @@ func ruleTileAddressing(w *World, r *Run, h int64) {
 		}
 		// results appended one per tile, in order
 		if len(s.Rets) == 2 && s.Rets[1].Kind == "nil" {
-			var elems []*Term
-			t := s.Rets[0]
-			for t.Kind == "append" {
-				var el []*Term
-				for _, x := range t.Args[1:] {
-					if x.Kind == "varargs" {
-						el = append(el, x.Args...)
-					}
-				}
-				elems = append(el, elems...)
-				t = t.Args[0]
-			}
+			elems, _ := sliceElems(s, s.Rets[0])
 			good := len(elems) == len(gds)
 			for i := range elems {
 				if i < len(gds) && elems[i] != res(gds[i], 0) {
